@@ -323,8 +323,8 @@ def _g(prefix, pairs):
 # within the memory budget.  Heavier cases of the same families (e.g. the prefiltered decision for en passant,
 # 20 min) are thorough-tier only; the evidence of the quick run names them.
 QUICK = {
-    'C01': ['c01_try_unchecked_w_ep', 'c01_try_unchecked_b_ep', 'c01_validate_w_ep', 'c06_semilegal_validator_w_castling',
-            'c06_semilegal_validator_w_ep', 'c06_semilegal_validator_b_ep'],
+    'C01': ['c01_prefiltered_ep_king_on_rank_w', 'c01_prefiltered_ep_king_on_rank_b', 'c01_validate_w_ep', 'c01_try_unchecked_b_ep',
+            'c06_semilegal_validator_w_castling'],
     'C02': ['c02_make_raw_step_w_castling', 'c02_make_raw_step_b_pspecial', 'c09_san_simple_pawn_refused', 'c10_uci_parse_exact', 'c13_chain_push_pop_s1_p0_ep'],
     'C03': _g('c03_make_unmake', [('w', 'ep'), ('b', 'ep'), ('w', 'castling'), ('b', 'pspecial'), ('b', 'king'), ('w', 'queen')]),
     'C04': _g('c03_make_unmake', [('w', 'null'), ('b', 'null'), ('b', 'castling'), ('w', 'pspecial'), ('b', 'ep'), ('w', 'rook')]),
@@ -356,7 +356,7 @@ THOROUGH = {
     # only families with at least one instance that passed on the pinned tree within its caps are listed; harnesses that
     # exist but are listed nowhere (S6 wiring / legal lists, direct probe, FEN, chain equality, long walkers, SAN candidate
     # search for Simple / PawnCaptureShort) did not fit or are unsound and claim nothing (DESIGN.md sections 6 and 8)
-    'C01': ['c01_prefiltered_w_*', 'c01_prefiltered_b_ep', 'c01_prefiltered_b_castling', 'c01_prefiltered_b_king', 'c01_prefiltered_b_pspecial',
+    'C01': ['c01_prefiltered_ep_king_on_rank_?', 'c01_prefiltered_w_*', 'c01_prefiltered_b_ep', 'c01_prefiltered_b_castling', 'c01_prefiltered_b_king', 'c01_prefiltered_b_pspecial',
             'c01_validate_?_ep', 'c01_validate_w_castling', 'c01_validate_b_king', 'c01_try_unchecked_?_ep', 'c01_try_unchecked_b_castling',
             'c06_semilegal_gen_pawns_all_?', 'c06_semilegal_gen_all_w'],
     'C02': ['c02_make_move_step_w_ep', 'c02_make_move_step_w_castling', 'c02_make_move_step_w_pspecial', 'c02_make_move_step_w_king', 'c02_make_move_step_b_ep',
